@@ -22,6 +22,8 @@ R1(o) == UNION {A1(o, f) : f \in FieldsQ}
 R2(o) == UNION {UNION {A2(e, f) : e \in A1(o, f)} : f \in FieldsQ}
 Pairs(o) == {Add(l, r) : l \in R1(o), r \in R1(o)}
 R(o)  == R1(o) \cup R2(o) \cup (IF LEVEL >= 2 THEN Pairs(o) ELSE {})
+\* the classes that must NOT read inputs get the one-level accesses only on the quick tier
+RN(o) == IF LEVEL >= 2 THEN R(o) ELSE R1(o)
 
 Wrap(c, x, es) == {[c |-> c, x |-> x, e |-> ee] : ee \in es}
 
@@ -49,10 +51,10 @@ Alias ==
   Wrap("alias-var-initialiser", "some", {Body(<<VarI("a", IN_)>>, r) : r \in R(A_)})
   \cup Wrap("alias-assignment", "some", {Body(<<VarD("a"), Set("a", IN_)>>, r) : r \in R(A_)})
   \cup Wrap("alias-of-field", "some", {Body(<<VarI("a", fe)>>, r) : fe \in A1(IN_, "f"), r \in A1(A_, "g")})
-  \cup Wrap("reassigned-away", "none", {Body(<<VarI("a", IN_), Set("a", SELF_)>>, r) : r \in R(A_)})
-  \cup Wrap("reassigned-away-2", "none", {Body(<<VarD("a"), Set("a", IN_), Set("a", SELF_)>>, r) : r \in R(A_)})
+  \cup Wrap("reassigned-away", "none", {Body(<<VarI("a", IN_), Set("a", SELF_)>>, r) : r \in RN(A_)})
+  \cup Wrap("reassigned-away-2", "none", {Body(<<VarD("a"), Set("a", IN_), Set("a", SELF_)>>, r) : r \in RN(A_)})
   \cup Wrap("reassigned-back", "some", {Body(<<VarI("a", SELF_), Set("a", IN_)>>, r) : r \in R(A_)})
-  \cup Wrap("local-var-shadow", "none", {Body(<<VarI("inputs", ObjLit)>>, r) : r \in R(IN_)})
+  \cup Wrap("local-var-shadow", "none", {Body(<<VarI("inputs", ObjLit)>>, r) : r \in RN(IN_)})
 
 \* ---- functions, closures, parameters (shadowing inputs or receiving it) ----
 X_ == Id("x")
@@ -64,9 +66,9 @@ Functions ==
   \cup Wrap("function-argument", "some",
             {Body(<<fd>>, Call("g", IN_)) : fd \in UNION {FunForms("g", "x", <<>>, r) : r \in R(X_)}})
   \cup Wrap("function-argument-other", "none",
-            {Body(<<fd>>, Call("g", a)) : fd \in UNION {FunForms2("g", "x", <<>>, r) : r \in R(X_)}, a \in {SELF_, ObjLit}})
+            {Body(<<fd>>, Call("g", a)) : fd \in UNION {FunForms2("g", "x", <<>>, r) : r \in RN(X_)}, a \in {SELF_, ObjLit}})
   \cup Wrap("shadowing-parameter", "none",
-            {Body(<<fd>>, Call("g", a)) : fd \in UNION {FunForms2("g", "inputs", <<>>, r) : r \in R(IN_)}, a \in {SELF_, ObjLit}})
+            {Body(<<fd>>, Call("g", a)) : fd \in UNION {FunForms2("g", "inputs", <<>>, r) : r \in RN(IN_)}, a \in {SELF_, ObjLit}})
   \cup Wrap("shadowing-parameter-gets-inputs", "some",
             {Body(<<fd>>, Call("g", IN_)) : fd \in UNION {FunForms2("g", "inputs", <<>>, r) : r \in R(IN_)}})
   \* the shadow ends with the function: the read after the call is a read of the real inputs
@@ -78,11 +80,33 @@ Functions ==
   \cup Wrap("nested-closure", "some",
             {Body(<<Fun("g", "", <<Fun("h", "", <<>>, r)>>, Call("h", NoArg))>>, Call("g", NoArg)) : r \in R(IN_)})
   \cup Wrap("nested-shadowing-outer", "none",
-            {Body(<<Fun("g", "inputs", <<Fun("h", "", <<>>, r)>>, Call("h", NoArg))>>, Call("g", ObjLit)) : r \in R(IN_)})
+            {Body(<<Fun("g", "inputs", <<Fun("h", "", <<>>, r)>>, Call("h", NoArg))>>, Call("g", ObjLit)) : r \in RN(IN_)})
   \cup Wrap("nested-shadowing-inner", "none",
-            {Body(<<Fun("g", "", <<Fun("h", "inputs", <<>>, r)>>, Call("h", SELF_))>>, Call("g", NoArg)) : r \in R(IN_)})
+            {Body(<<Fun("g", "", <<Fun("h", "inputs", <<>>, r)>>, Call("h", SELF_))>>, Call("g", NoArg)) : r \in RN(IN_)})
   \cup Wrap("nested-argument-inner", "some",
             {Body(<<Fun("g", "", <<Fun("h", "q", <<>>, r)>>, Call("h", IN_))>>, Call("g", NoArg)) : r \in R(Id("q"))})
+
+\* ---- re-assignment of an alias that is tracked through an assignment (var a; a = inputs;) ----
+Tracked == <<VarD("a"), Set("a", IN_)>>
+Flag == Dot(IN_, "flag")                                   \* false: the branch is not taken
+Rebinding ==
+  \* narrowed through itself: a = a.f; the read of f happens in the right-hand side
+  Wrap("alias-narrowed-through-itself", "some",
+       UNION {{Body(Tracked \o <<Set("a", fe)>>, r) : fe \in A1(A_, f), r \in A2(A_, f)} : f \in FieldsQ})
+  \* re-bound to something else under a condition that is false: a is still inputs afterwards
+  \cup Wrap("alias-conditionally-rebound-not-taken", "some",
+       {Body(Tracked \o <<If(Flag, <<Set("a", rhs)>>)>>, r) : rhs \in {ObjLit, Str("x", "sq"), Num(0), SELF_}, r \in R1(A_)}
+       \cup {Body(Tracked \o <<If(ce, <<Set("a", ObjLit)>>)>>, Dot(A_, "f")) : ce \in A1(IN_, "flag")})
+  \* ... under a condition that is true: only the condition is read
+  \cup Wrap("alias-conditionally-rebound-taken", "some",
+       {Body(Tracked \o <<If(Dot(IN_, "g"), <<Set("a", rhs)>>)>>, r) : rhs \in {ObjLit, SELF_}, r \in R1(A_)})
+  \cup Wrap("alias-rebound-unconditionally", "none",
+       {Body(Tracked \o <<Set("a", ObjLit)>>, r) : r \in R1(A_) \cup R2(A_)})
+  \* a function that re-binds the alias is declared but never called
+  \cup Wrap("alias-rebound-inside-uncalled-function", "some",
+       {Body(Tracked \o <<fd>>, r) : fd \in UNION {FunForms("g", "", <<Set("a", rhs)>>, Num(0)) : rhs \in {Str("none", "sq"), ObjLit}},
+                                      r \in R1(A_)}
+       \cup {Body(Tracked \o <<fd>>, Dot(A_, "f")) : fd \in FunForms("g", "", <<Set("a", SELF_)>>, Num(0))})
 
 \* ---- computed member access ----
 K_ == Id("k")
@@ -127,11 +151,12 @@ Parens ==
   \cup Wrap("parenthesised-read", "some",
        UNION {{Par(e1) : e1 \in A1(IN_, f)} \cup UNION {A2(Par(e1), f) : e1 \in A1(IN_, f)} : f \in FieldsQ})
 ParensTop == {[c |-> cs.c, x |-> cs.x, e |-> JsX(cs.e)] : cs \in Parens}
-             \cup {[c |-> cs.c, x |-> cs.x, e |-> Body(<<>>, cs.e)] : cs \in Parens}
+             \cup {[c |-> cs.c, x |-> cs.x, e |-> Body(<<>>, cs.e)] : cs \in {y \in Parens : LEVEL >= 2 \/ y.c = "parenthesised-inputs"}}
 
 \* ---- concatenation of two reads, string interpolation of two expressions ----
 Concats ==
-  Wrap("concatenation", "some", {JsX(pr) : pr \in Pairs(IN_)})
+  Wrap("concatenation", "some", IF LEVEL >= 2 THEN {JsX(pr) : pr \in Pairs(IN_)}
+                                ELSE {JsX(Add(l, r)) : l \in R1(IN_), r \in A1(IN_, "g") \cup {Dot(IN_, "arr")}})
   \cup Wrap("concatenation-mixed", "some", {JsX(Add(l, r)) : l \in R1(IN_), r \in A1(SELF_, "g") \cup {Dot(Id("runtime"), "cores")}})
   \cup Wrap("concatenation-mixed", "some", {Body(<<>>, Add(l, r)) : l \in A1(SELF_, "f"), r \in R1(IN_)})
 TmplParts == (IF LEVEL >= 2 THEN PRefsOn("inputs") ELSE {PRef("inputs", <<s1>>) : s1 \in UNION {Seg1(f) : f \in {"f", "arr"}}})
@@ -143,6 +168,6 @@ TmplLeft == IF LEVEL >= 2 THEN PRefsOn("inputs") ELSE {PRef("inputs", <<s1>>) : 
 Templates == Wrap("template", "some", {Tmpl(p1, p2) : p1 \in TmplLeft, p2 \in TmplParts}
                                       \cup {Tmpl(p1, p2) : p1 \in TmplParts, p2 \in {PRef("inputs", <<Seg("dq", "g")>>)}})
 
-Family == ParamRefs \cup Direct \cup Alias \cup Functions \cup Computed \cup Mentions \cup ParensTop
+Family == ParamRefs \cup Direct \cup Alias \cup Rebinding \cup Functions \cup Computed \cup Mentions \cup ParensTop
           \cup Concats \cup Templates
 =============================================================================
